@@ -162,7 +162,7 @@ var (
 		{Name: `Operators`, Pattern: `<>|!=|<=|>=|[-+*/%,.()=<>]`},
 		{Name: "whitespace", Pattern: `\s+`},
 	})
-	sqlParser = participle.MustBuild[sqlSelect](
+	sqlParser = mustBuild[sqlSelect](
 		participle.Lexer(sqlLexer),
 		participle.Unquote("String"),
 		participle.CaseInsensitive("Keyword"),
